@@ -267,7 +267,9 @@ func TestVerifC02Tree(t *testing.T) {
 	}
 	rng := vu.Rand(22)
 	for i := 0; i < n; i++ {
-		c01RunOpt(rec, c02TreeScript(rng, length), true)
+		// every other segment with min-quota scaling enabled (the plugin's default)
+		script := append([]c01Op{{Op: "reset", Scale: i%2 == 1}}, c02TreeScript(rng, length)...)
+		c01RunOpt(rec, script, true)
 	}
 	t.Logf("C02 tree: %d segments, %d events", rec.Segments(), rec.Events())
 }
